@@ -55,6 +55,13 @@ var c15Shapes = map[string]map[string]shapeDef{
 		"S": {[]byte{0x0c, 0, 1}, []byte{0x0a, 0, 3, 0, 0, 0, 0, 0, 0, 0, 7, 0}, 1},
 		"L": {[]byte{0x0f, 0, 2, 0x0c, 0, 0, 0, 1}, []byte{0x0a, 0, 3, 0, 0, 0, 0, 0, 0, 0, 7, 0}, 2},
 	},
+	// mutual recursion: no type refers to itself, the cycle runs MutA -> MutB -> (list) MutA and
+	// MutA -> MutB -> MutC -> (map value) MutA; the suffix closes MutB (and MutC) and then the MutA
+	// the step started in, which has a required field
+	"MutA": {
+		"AB": {[]byte{0x0c, 0, 1, 0x0f, 0, 1, 0x0c, 0, 0, 0, 1}, []byte{0, 0x0a, 0, 2, 0, 0, 0, 0, 0, 0, 0, 7, 0}, 3},
+		"AC": {[]byte{0x0c, 0, 1, 0x0c, 0, 2, 0x0d, 0, 1, 0x0b, 0x0c, 0, 0, 0, 1, 0, 0, 0, 1, 'k'}, []byte{0, 0, 0x0a, 0, 2, 0, 0, 0, 0, 0, 0, 0, 7, 0}, 4},
+	},
 	"RecMix": {
 		"S":   {[]byte{0x0c, 0, 1}, []byte{0}, 1},
 		"L":   {[]byte{0x0f, 0, 2, 0x0c, 0, 0, 0, 1}, []byte{0}, 2},
@@ -66,9 +73,9 @@ var c15Shapes = map[string]map[string]shapeDef{
 }
 
 // c15Tail: what the innermost struct of the type still has to carry (its required fields).
-var c15Tail = map[string][]byte{"RecReq": {0x0a, 0, 3, 0, 0, 0, 0, 0, 0, 0, 9}}
+var c15Tail = map[string][]byte{"RecReq": {0x0a, 0, 3, 0, 0, 0, 0, 0, 0, 0, 9}, "MutA": {0x0a, 0, 2, 0, 0, 0, 0, 0, 0, 0, 9}}
 
-var c15Types = []string{"RecS", "RecL", "RecSet", "RecMV", "RecMK", "RecLL", "RecH", "RecMix", "RecWide", "RecWide", "RecReq", "RecReq", "RecBV"}
+var c15Types = []string{"RecS", "RecL", "RecSet", "RecMV", "RecMK", "RecLL", "RecH", "RecMix", "RecWide", "RecWide", "RecReq", "RecReq", "RecBV", "MutA", "MutA"}
 
 var c15Depths = []int{1, 2, 3, 5, 8, 16, 31, 32, 33, 40, 47, 48, 49, 50, 63, 64, 65, 66, 100, 127, 128, 129, 200, 255, 256, 257, 340, 341, 342, 400, 511, 512, 513,
 	600, 682, 683, 767, 768, 769, 900, 1000, 1022, 1023, 1024, 1025, 1100, 2000, 5000, 10000, 100000, 1000000}
